@@ -995,7 +995,7 @@ class _ListFilter(t.Generic[T]):
         try:
             value = self.extract_key(element)
         except AttributeError:
-            return False
+            return not self._positive
 
         if isinstance(value, str) or not isinstance(value, cabc.Iterable):
             return self._positive == (value in valueset)
